@@ -50,7 +50,7 @@ def _sink(world, node, durs, batches):
 
     def consume(x):
         i = len(batches)
-        rec = {"x": x, "t": loop.now, "done": None}
+        rec = {"x": list(x) if isinstance(x, list) else x, "t": loop.now, "done": None}
         batches.append(rec)
         d = durs[i] if (durs is not None and i < len(durs)) else 0
         fut = loop.create_future()
